@@ -423,6 +423,7 @@ class Gen:
         variant = variant or r.choice(['bd', 'white', 'enh', 'enh'])
         shape = self.shape(maxT=12)
         if variant == 'bd':
+            self.n_hist_bd = getattr(self, 'n_hist_bd', -1) + 1
             case = self.bd_case(shape)
             case['method'] = r.choice(['wf', 'nowf'])
             case.pop('cov_scale', None)
@@ -433,6 +434,7 @@ class Gen:
             if variant == 'bd':
                 st = self.bd_case(shape)
                 hist.append({'H': st['H'], 'iPu': st['iPu'], 'nv': st['nv'], 'wf': r.chance(0.5)})
+                case['reuse_buffer'] = self.n_hist_bd % 3 != 2
             else:
                 st = self.ext_case(variant, shape=shape)
                 step = {'H': st['H'], 'E': st['E'], 'src': case['src'] if st['src'] != case['src'] and r.chance(0.5) else st['src'],
@@ -657,6 +659,18 @@ def h_arg(case):
 
 
 _LIVE = {}
+_BUF = {}
+
+
+def reuse_buffer(a):
+    """R16: the caller keeps ONE preallocated array per shape and refills it in place for every call (a Monte
+    Carlo loop); the result must depend on the content handed over, not on the identity of the array object"""
+    key = (a.shape, a.dtype.str, a.flags['F_CONTIGUOUS'] and not a.flags['C_CONTIGUOUS'])
+    b = _BUF.get(key)
+    if b is None:
+        b = _BUF[key] = np.empty_like(a)
+    b[...] = a
+    return b
 
 
 def apply_metric(o, case):
@@ -761,6 +775,7 @@ def make_solver(case):
     """the solver the case is run on: a fresh one, or (with `history`) a long-lived one that has already
     served other channels / configurations; the channel object of the history is handed out by make_channel"""
     hist = case.get('history')
+    _BUF.clear()
     if not hist:
         return fresh_solver(case)
     bd, MU, _ = _impl()
@@ -791,7 +806,9 @@ def make_solver(case):
             if step.get('pathloss'):
                 ch.set_pathloss(None)
         else:
-            (o.block_diagonalize if step.get('wf', True) else o.block_diagonalize_no_waterfilling)(arr_arg(st, dec(st['H'])))
+            arg = arr_arg(st, dec(st['H']))
+            (o.block_diagonalize if step.get('wf', True) else o.block_diagonalize_no_waterfilling)(
+                reuse_buffer(arg) if case.get('reuse_buffer') else arg)
     # now the configuration of the case itself, on the same objects
     o.iPu, o.noise_var = typed(case, 'iPu', case['iPu']), typed(case, 'nv', case['nv'])
     if case['variant'] != 'bd':
@@ -1012,7 +1029,8 @@ def run_case(case, which=None):
     o = make_solver(case)
     if case['variant'] == 'bd':
         fn = o.block_diagonalize if (which or case.get('method', 'wf')) == 'wf' else o.block_diagonalize_no_waterfilling
-        new_h, ms = fn(h_arg(case))
+        h = h_arg(case)
+        new_h, ms = fn(reuse_buffer(h) if case.get('reuse_buffer') and case.get('history') else h)
         return [new_h, ms], o, None
     ch = make_channel(case)
     ms, wk, ns = o.block_diagonalize_no_waterfilling(ch)
@@ -2745,6 +2763,8 @@ def robust_branch(ctx, kind, case, where):
                                                 'float16/32' if t in ('float16', 'float32') else 'other'))
     elif kind == 'history':
         ctx.branch('%s:R7:long-lived:%s' % (where, case['variant']))
+        if case.get('reuse_buffer'):
+            ctx.branch('%s:R16:argument-buffer-refilled-in-place' % where)
     else:
         ctx.branch('%s:R5:zero-%s' % (where, 'pe' if case['variant'] != 'bd' else 'noise'))
 
@@ -2917,6 +2937,7 @@ ROBUST_BRANCHES = [
     'oracle:R2:layout', 'oracle:R2:0d-scalar', 'oracle:R3:immutability', 'oracle:R4:rejected-calls', 'oracle:R5:iPu=0',
     'oracle:R5:K=1', 'oracle:R5:noise-changed', 'oracle:R5:zero-pe', 'oracle:R5:zero-noise', 'oracle:R7:shared-channel',
     'oracle:R7:long-lived:bd', 'oracle:R7:long-lived:white', 'oracle:R7:long-lived:enh',
+    'oracle:R16:argument-buffer-refilled-in-place', 'corr:R16:argument-buffer-refilled-in-place',
     'corr:R1:scalar:narrow-int', 'corr:R1:array:integer', 'corr:R2:layout', 'corr:R5:zero-pe', 'corr:R5:zero-noise',
     'corr:R7:long-lived:bd', 'corr:R7:long-lived:white', 'corr:R7:long-lived:enh', 'corr:metric-setter-histories',
     'scale:1e-12', 'scale:1e+12',
